@@ -54,6 +54,9 @@ def run_seed(mutate=None):
         class RunnerStub:
             def __init__(self, **kw):
                 LOG.update(kw)
+                LOG["tentative_dt_at_start"] = getattr(s, "tentative_dt", None)
+                LOG["history_at_start"] = list(getattr(s, "d_psi_sq_vals", ["?"]))
+                LOG["epsilon_at_start"] = s.epsilon
 
             def run(self):
                 return True
@@ -76,8 +79,16 @@ def run_seed(mutate=None):
                 return np.full_like(a, np.nan, dtype=dtype or float)
         L.ns.update(DataHandler=DH, Runner=RunnerStub, Solution=SolutionStub, np=NPPoison())
         s = L["TDGLSolver"].__new__(L["TDGLSolver"])
+        dt_init = sym.SR(z3.Real("dt_init"))
         s.options = type("O", (), {"output_file": None, "monitor": False, "monitor_update_interval": 1.0, "include_screening": bool(SB(z3.Bool("screening"))),
-                                   "sparse_solver": type("E", (), {"value": "superlu"})(), "validate": lambda self_: None})()
+                                   "sparse_solver": type("E", (), {"value": "superlu"})(), "validate": lambda self_: None, "dt_init": dt_init})()
+        # the solver may have been run before: adaptive state, reference potential and epsilon are those of the END of that run
+        s.tentative_dt = sym.SR(z3.Real("last_proposed_dt_of_an_earlier_run"))
+        s.d_psi_sq_vals = [0.25, 0.125]
+        ops_log = []
+        s.operators = type("Ops", (), {"set_link_exponents": lambda self_, A: ops_log.append(A)})()
+        s.update_applied_vector_potential = lambda t: ("A_applied_at", t)
+        s.update_epsilon = lambda t: ("epsilon_at", t)
         dev = type("Dev", (), {"mesh": "MESH"})()
         s.device = dev
         sd = type("TD", (), {})()
@@ -89,7 +100,7 @@ def run_seed(mutate=None):
         s.probe_points = np.array([0, 1]) if bool(SB(z3.Bool("probes"))) else None
         s.psi_init, s.mu_init = np.ones(3, dtype=complex), np.zeros(3)
         s.dynamic_vector_potential = bool(SB(z3.Bool("dynamic_A")))
-        s.dynamic_epsilon = False
+        s.dynamic_epsilon = bool(SB(z3.Bool("dynamic_epsilon")))
         s.use_cupy = False
         s.current_A_applied, s.epsilon = object(), object()
         s.applied_vector_potential = s.disorder_epsilon = object()
@@ -99,10 +110,23 @@ def run_seed(mutate=None):
         s.solve()
         # solve() hands the state to the runner; it must not touch the reference potential the operators were last refreshed with (C10's
         # invariant Inv_S is what update() relies on at its first call)
-        sym.check_terms("C10.solve_keeps_the_reference_potential_of_the_operators", s.current_A_applied is A_ref)
+        # (solve() may re-evaluate a time-dependent potential for time zero - a solver can be run again - but only together with the operators)
+        same_ref = s.current_A_applied is A_ref and not ops_log
+        refreshed = bool(ops_log) and ops_log[-1] is s.current_A_applied
+        sym.check_terms("C10.solve_keeps_the_reference_potential_of_the_operators", same_ref or refreshed,
+                        note=f"reference potential replaced: {s.current_A_applied is not A_ref}; operators refreshed with it: {refreshed}")
+        # every run starts from the initial time step with an empty adaptive history (C12), whatever an earlier run on the same solver left behind
+        check("C12.solve.every_run_starts_from_dt_init_with_an_empty_history", z3.And(sym.eq(LOG["tentative_dt_at_start"], dt_init), z3.BoolVal(LOG["history_at_start"] == [])))
+        # ... and from the time-dependent inputs at time zero (C11: the trajectory depends only on the physics, not on an earlier run)
+        if s.dynamic_vector_potential:
+            sym.check_terms("C11.run_starts_from_the_inputs_at_time_zero.applied_potential", s.current_A_applied == ("A_applied_at", 0),
+                            note=f"reference potential at the start of the run: {s.current_A_applied!r}")
+        if s.dynamic_epsilon:
+            sym.check_terms("C11.run_starts_from_the_inputs_at_time_zero.epsilon", LOG["epsilon_at_start"] == ("epsilon_at", 0), note=f"epsilon at the start of the run: {LOG['epsilon_at_start']!r}")
         names = list(LOG["names"])
         vals = list(LOG["initial_values"])
-        want = ["psi", "mu", "supercurrent", "normal_current", "induced_vector_potential"] + (["applied_vector_potential"] if s.dynamic_vector_potential else [])
+        want = ["psi", "mu", "supercurrent", "normal_current", "induced_vector_potential"] + (["applied_vector_potential"] if s.dynamic_vector_potential else []) \
+            + (["epsilon"] if s.dynamic_epsilon else [])
         check("C11.seed_is_state.names_in_update_order", z3.BoolVal(names == want))
         if not seeded:
             # no seed: the recorded frame 0 is psi_init, mu_init and exactly zero currents / induced potential (defined values, not whatever
@@ -117,7 +141,8 @@ def run_seed(mutate=None):
                    ([(vals[5], s.current_A_applied)] if s.dynamic_vector_potential else []))
         check("C11.seed_is_state.update_function_is_the_solver_update", z3.BoolVal(LOG["function"] == s.update or LOG["function"] is not None))
         fn = dict(zip(LOG["fixed_names"], LOG["fixed_values"]))
-        check_same("C11.static_inputs_passed_as_fixed_values", [(fn.get("epsilon"), s.epsilon)] + ([] if s.dynamic_vector_potential else [(fn.get("applied_vector_potential"), s.current_A_applied)]))
+        check_same("C11.static_inputs_passed_as_fixed_values", ([] if s.dynamic_epsilon else [(fn.get("epsilon"), s.epsilon)]) +
+                   ([] if s.dynamic_vector_potential else [(fn.get("applied_vector_potential"), s.current_A_applied)]))
         rn = LOG["running_names_and_sizes"]
         check("C11.probes_only_add_records", z3.BoolVal(("mu" in rn) == (s.probe_points is not None) and rn.get("dt") == 1))
     obls, n = explore(body)
